@@ -993,6 +993,49 @@ func ruleMergeOrder(p *Prog, r *Report) {
 			}
 		}
 		okDrop = okDrop && okBack
+		// the walk over trailing DROP rules looks at the rules of the chain as Netspoc wrote it
+		// (field rules of the receiver's chain), not at a list that already has raw rules in it
+		walked, walkedOK := 0, true
+		for _, b := range fn.Blocks {
+			for _, in := range b.Instrs {
+				lk, ok := in.(*ssa.Lookup)
+				if !ok {
+					continue
+				}
+				if k, isC := constString(lk.Index); !isC || k != "-j" {
+					continue
+				}
+				// pairs of which rule?  rules[i-1].pairs
+				var base ssa.Value = lk.X
+				for d := 0; d < 6; d++ {
+					switch x := base.(type) {
+					case *ssa.UnOp:
+						base = x.X
+						continue
+					case *ssa.FieldAddr:
+						base = x.X
+						continue
+					case *ssa.Field:
+						base = x.X
+						continue
+					}
+					break
+				}
+				ia, ok := base.(*ssa.IndexAddr)
+				if !ok {
+					continue
+				}
+				if bo, isB := ia.Index.(*ssa.BinOp); !isB || bo.Op != token.SUB {
+					continue // only the backward walk (rules[i-1])
+				}
+				walked++
+				if d := descValue(ia.X, 0); !strings.HasPrefix(d, "field linux.chain.rules") {
+					walkedOK = false
+				}
+			}
+		}
+		r.add("R18.6", "linux-drop-walk-on-netspoc-chain|(*linux.config).MergeSpoc", p.pos(fn.Pos()), fmt.Sprintf("%d backward test(s) for DROP read the rules of the Netspoc chain itself", walked), walkedOK && walked > 0,
+			"the position for [APPEND] rules is searched in a list that already contains raw rules: a raw DROP at the end of the rules in front is walked over and the appended rule lands inside the raw part")
 		// the lists are inserted whole: an element-wise slices.Insert in a loop puts every rule at
 		// a position computed anew (index 0: the rules come out reversed; "before the trailing DROP
 		// rules" moves while DROP rules are being inserted)
